@@ -884,3 +884,85 @@ def special_settings_loaders(si: int, route: int) -> bool:
     else:
         ok = got == value
     return done(ok, setting=name, route=["mapping", "keywords", "object", "pyfile", "cli file:"][route])
+
+
+# ---------------------------------------------------------------- alt-svc from the QUIC sockets of *this* configuration only
+
+
+class _QSock:
+    def __init__(self, name) -> None:
+        self._name = name
+
+    def getsockname(self):
+        return self._name
+
+
+def _h3_alpn():
+    try:
+        from aioquic.h3.connection import H3_ALPN  # noqa: F401
+    except ImportError:  # aioquic is not installed in this sandbox: only the constant is needed
+        import sys
+        import types
+
+        pkg, h3, conn = types.ModuleType("aioquic"), types.ModuleType("aioquic.h3"), types.ModuleType("aioquic.h3.connection")
+        conn.H3_ALPN = ["h3"]
+        pkg.h3, h3.connection = h3, conn
+        sys.modules.setdefault("aioquic", pkg)
+        sys.modules.setdefault("aioquic.h3", h3)
+        sys.modules.setdefault("aioquic.h3.connection", conn)
+    from aioquic.h3.connection import H3_ALPN
+
+    return list(H3_ALPN)
+
+
+@harness(
+    "C19",
+    dom={"n1": (0, 2), "n2": (-1, 2), "p0": (0, 3), "p1": (0, 3), "explicit": "bool"},
+    split={"n1": "each"},
+    witnesses=[{"n1": 1, "n2": -1, "p0": 2, "p1": 1, "explicit": False}, {"n1": 2, "n2": 1, "p0": 0, "p1": 3, "explicit": True}],
+    budget=60,
+    bounds="a configuration whose QUIC sockets (0..2, ports from {1, 443, 4433, 65535}) are registered once or twice (second registration with 0..2 sockets), next to a second configuration and a default one created before and after: each advertises alt-svc for exactly its own current QUIC ports, explicit alt_svc_headers win",
+    encodes=["hypercorn/config.py::Config._set_quic_addresses", "hypercorn/config.py::Config.response_headers"],
+    stubs=["sockets are objects with getsockname(); aioquic's H3_ALPN constant is supplied when aioquic is not installed"],
+)
+def quic_alt_svc_isolation(n1: int, n2: int, p0: int, p1: int, explicit: bool) -> bool:
+    """
+    pre: DOM(quic_alt_svc_isolation, n1=n1, n2=n2, p0=p0, p1=p1, explicit=explicit)
+    post: _
+    """
+    enter()
+    n1 = conc(n1, 0, 2)
+    n2 = conc(n2, -1, 2)
+    explicit = True if explicit else False
+    alpn = _h3_alpn()
+    table = [1, 443, 4433, 65535]
+    ports = [table[conc(p0, 0, 3)], table[conc(p1, 0, 3)]]
+    before = Config()
+    a = Config()
+    b = Config()
+    for c in (before, a, b):
+        c.include_date_header = False
+        c.include_server_header = False
+    if explicit:
+        a.alt_svc_headers = ['h3=":443"']
+    a._set_quic_addresses([_QSock(("0.0.0.0", ports[i])) for i in range(n1)])
+    current = ports[:n1]
+    if n2 >= 0:
+        a._set_quic_addresses([_QSock(("::", ports[1 - i], 0, 0)) for i in range(n2)])
+        current = [ports[1 - i] for i in range(n2)]
+    after = Config()
+    after.include_date_header = False
+    after.include_server_header = False
+
+    def alt(c):
+        return [v for n, v in c.response_headers("h2") if n == b"alt-svc"]
+
+    want_a = [b'h3=":443"'] if explicit else [b'%s=":%d"; ma=3600' % (v.encode(), p) for v in alpn for p in current]
+    why = ""
+    got = alt(a)
+    if got != want_a:
+        why = f"configuration with QUIC ports {current} advertises {got!r}, expected {want_a!r}"
+    for name, c in (("a second configuration", b), ("a configuration created earlier", before), ("a configuration created later", after)):
+        if not why and alt(c):
+            why = f"{name} without QUIC sockets advertises {alt(c)!r}"
+    return done(why == "", sockets_first=n1, sockets_second=n2, ports=ports, explicit=explicit, why=why)
